@@ -186,6 +186,14 @@ def random_history(rng, nops_max):
         if rng.random() < 0.3:
             ticks.append({"gap": rng.choice([S, 5 * S]), "calls": mk_calls(rng, ids), "ops": []})
     sc["ticks"] = ticks
+    if rng.random() < 0.2:
+        # some base rulesets are ruleset-cgroup rulesets whose pattern matches exactly one existing cgroup: evaluated through
+        # one per-cgroup instance (and so are their drop-in copies), they must behave like the plain ruleset in everything C13
+        # states - order, scoped replacement, and being disabled while a drop-in targets them
+        sc["tree"] = {"name": "", "children": [{"name": "s", "children": [{"name": "a", "children": []}]}]}
+        for b in base:
+            if rng.random() < 0.6:
+                b["cgroup"] = rng.choice(["s/a", "s/*", "s/a"])
     return sc
 
 
